@@ -84,7 +84,7 @@ func c06Unit(c *RunCtx, unit int) {
 			jars[b] = s.Br[b].B.Jar["rm"]
 		}
 		oldPw := U.Pw
-		newCls := pickS(r, "fresh", "fresh", "same", "long73", "long72", "long71", "nonascii", "nul", "one", "weak", "hashshaped")
+		newCls := pickS(r, "fresh", "fresh", "same", "long73", "long72", "long71", "nonascii", "nul", "one", "weak", "hashshaped", "wsends")
 		via := pickS(r, "recover", "recover", "update")
 		var ch *sim.Step
 		usedTok := ""
